@@ -58,6 +58,32 @@ claim("C16", "proof",
       "Trusted: rustc match semantics, oracle/si_prefixes.json, core::slice::Iter order.", "constant/match-table extraction + oracle comparison (static, exhaustive)",
       "DESIGN.md §4 C16")
 
+claim("C04", "other",
+      "One value-flow obligation per generated Mul/Div between quantity types (catalogue 34, astronomical 4, fixtures 8; both back-ends): combined scale uses the impl's "
+      "own operator, natural-unit branch stores exactly a⊗b with the looked-up unit, fallback passes (a⊗b)·σ (rational function) to the RESULT type's _fit; generic _fit "
+      "returns new(x/scale(u), u) with one u; three reference forms per operator forward the dereferenced operands in order to the by-value impl (resolved callee).",
+      VF_NOTE, "gated value-flow summaries per generated impl + resolved who-calls (static)", "DESIGN.md §4 C04")
+claim("C05", "other",
+      "_fit uses the amount only in comparisons (checked structurally), so selection is a function on a finite order partition: the extracted selection model "
+      "(iterator chain + closure predicates from the THIR summary) is evaluated on every cell (below/on/between/above every distinct scale, zero, negative) of every "
+      "reference-unit type's table in both back-ends and compared with the specified selection; lookup(1) is the reference unit; lookup(s) hits for every declared scale. Exhaustive.",
+      "Trusted: std contracts of Iterator::filter/next/last/find and Option::unwrap; rustc THIR construction. The natural-unit branch form is C04, the lookup form C09.",
+      "extracted selection model evaluated over the finite order domain of the scale tables (static, exhaustive)", "DESIGN.md §4 C05")
+claim("C06", "proof",
+      "The operator impl table of the type-checked crates (all features, both back-ends, astronomical crate, fixtures) is enumerated and must EQUAL the closure of the "
+      "declared derivations plus the per-type standard set (nothing missing, nothing extra, each once, three reference forms each); every Mul/Div entry is consistent with an "
+      "independent dimension-vector table; declared derivations equal independently written defining equations; no generic operator impls except the Rate forms; "
+      "comparisons and +,- only like with like. thorough: rustc's verdict on the generated operator matrix.",
+      "Trusted: rustc trait selection (an operator expression on concrete types type-checks iff the impl table has a matching entry; operators do not auto-ref); oracle/dimensions.json, oracle/derivations.json.",
+      "impl-table enumeration from the type-checked program vs declaration closure and dimension oracle (static, exhaustive)", "DESIGN.md §4 C06")
+claim("C09", "proof",
+      "Per unit enum of every macro instance (both back-ends): VARIANTS folded and compared with the order computed from the un-expanded declaration by exact rationals "
+      "(permutation, non-decreasing scale, reference unit first among scale-one units, declaration order for ties / name order); Unit::iter reads its own VARIANTS; one public "
+      "upper-snake constant per unit; lookups are iter().find(key(unit)==arg) with the specified key (closure bodies summarised), not overridden; REF_UNIT, is_ref_unit, as_qty forms; "
+      "symbol round trip evaluated on every table.",
+      "Trusted: rustc THIR construction; std contracts of <[T]>::iter, Iterator::cloned, Iterator::find.",
+      "constant-table extraction + declaration agreement + value-flow forms of the lookups (static, exhaustive)", "DESIGN.md §4 C09")
+
 NOT_YET = "check not built yet (see DESIGN.md for the planned static analysis)"
 
 m = {
